@@ -698,7 +698,10 @@ func (sys *System) GetCachedLocations(ctx *Context) []string {
 }
 
 func (sys *System) ensureStorage(ctx *Context) (Storage, error) {
-	// Assumes we have the sys lock
+	// Concurrent first requests (for different locations) must
+	// end up sharing one storage instance.
+	sys.Lock()
+	defer sys.Unlock()
 	if sys.storage != nil {
 		return sys.storage, nil
 	}
@@ -719,6 +722,8 @@ func (sys *System) ensureStorage(ctx *Context) (Storage, error) {
 // might not really do anything (depending on the Storage, of course).
 func (sys *System) Close(ctx *Context) error {
 	Log(INFO, ctx, "System.Close")
+	sys.Lock()
+	defer sys.Unlock()
 	if sys.storage != nil {
 		err := sys.storage.Close(ctx)
 		sys.storage = nil // ?
@@ -1508,6 +1513,8 @@ func (sys *System) GetProfileBlock(ctx *Context) (string, error) {
 //
 // Used by 'service' for testing purposes.
 func (sys *System) PeekStorage(ctx *Context) (Storage, error) {
+	sys.Lock()
+	defer sys.Unlock()
 	return sys.storage, nil
 }
 
